@@ -12,6 +12,7 @@ def build(u):
     u.ghost_callees["c:tokio::spawn"] = "Tracked(d)"
     u.raw("use vstd::prelude::*;\nverus! {\n")
     u.env("prelude.rs")
+    u.env("std_extra.rs")
     u.canary_decls()
     u.env("anyhow.rs")
     u.env("dispatch_env.rs")
